@@ -16,6 +16,7 @@ import (
 	"verif/checks/c07"
 	"verif/checks/c08"
 	"verif/checks/c09"
+	"verif/checks/c10"
 	"verif/checks/c11"
 	"verif/checks/c12"
 	"verif/checks/c15"
@@ -41,6 +42,7 @@ var checks = map[string]check{
 	"C07": {"exploration", c07.Run, c07.Replay},
 	"C08": {"exploration", c08.Run, c08.Replay},
 	"C09": {"fault_enumeration", c09.Run, c09.Replay},
+	"C10": {"fault_enumeration", c10.Run, c10.Replay},
 	"C11": {"model_checking", c11.Run, c11.Replay},
 	"C12": {"model_checking", c12.Run, c12.Replay},
 	"C15": {"exploration", c15.Run, c15.Replay},
